@@ -16,6 +16,9 @@ pub use scale_info::{Registry, TypeInfo};
 pub use ::scale_info as si_renamed;
 pub use std::collections::{BTreeMap, BTreeSet, BinaryHeap, VecDeque};
 pub use std::borrow::Cow;
+pub use std::rc::Rc;
+pub use std::sync::Arc;
+pub use core::ops::Range;
 
 pub trait Tr {
     type A;
